@@ -176,6 +176,9 @@ def run(rep):
     for k in ("nan_key_sources", "nan_leaf_sources", "ptr_to_ptr_below_top_sources", "populated_prior_map_ops", "accepted_by_shape_only"):
         if not cnt.n[k] and not rep.violations:
             raise common.CheckError("the corpus holds no op of the kind %s" % k)
+    # recorded known findings of this property that the corpus cannot express (vlib/data/known)
+    from vlib import probes
+    probes.run(rep, "C05")
 
 
 def replay(rep, path):
